@@ -290,6 +290,18 @@ func runClientConnExecution(t *testing.T, seed int64, log *traceLog) {
 		if err != nil {
 			t.Fatalf("allocate: %v", err)
 		}
+		if rng.Intn(4) == 0 {
+			// the application had an allocation before on this client: it closed that socket, allocated again, and
+			// closes the old socket once more (a deferred Close): an error for the caller, nothing for the new socket
+			old := relay
+			_ = old.Close()
+			synctest.Wait()
+			if relay, err = cl.Allocate(); err != nil {
+				t.Fatalf("allocate again: %v", err)
+			}
+			_ = old.Close()
+			synctest.Wait()
+		}
 		log.add(map[string]any{"e": "Reset", "seed": seed, "profile": profile})
 		var wg sync.WaitGroup
 		wn, rn := 0, 0
